@@ -272,4 +272,7 @@ SUBCHECKS = [
     SubCheck("spread_single", run_case, strategy=lambda: c01.st_case(threaded=False), quick=200, thorough=4000),
     SubCheck("spread_threaded", run_case, strategy=lambda: c01.st_case(threaded=True), quick=400, thorough=8000),
     SubCheck("all_positions", run_case_all, strategy=lambda: c01.st_case(threaded=True), quick=48, thorough=3000),
+    # strax's multiprocessing path (inlined plugins and forked savers behind a simulated process boundary)
+    SubCheck("spread_multiprocess", run_case, strategy=lambda: c01.st_case(threaded=True, multiprocess=True),
+             quick=240, thorough=6000),
 ]
